@@ -51,8 +51,10 @@ class DataContainerBase(FileIOMixin):
     def _add_error_object(self, name, error_object, **additional_error_dict_keys):
         """create a new entry <name> under self._error_dicts,
         with keys err=<ErrorObject> and arbitrary additional keys"""
-        if error_object.error.shape[0] != self.size:
-            raise ValueError(f"Error must have size {self.size} but" f"received error with size {error_object.error.shape[0]}")
+        # check the size as declared: the absolute values of a relative error are broadcast against the data
+        _declared_error = error_object.error_rel if error_object.relative else error_object.error
+        if _declared_error.shape[0] != self.size or error_object.error.shape[0] != self.size:
+            raise ValueError(f"Error must have size {self.size} but" f"received error with size {_declared_error.shape[0]}")
         _name = name
         if _name is not None and _name in self._error_dicts:
             raise ValueError(
